@@ -530,6 +530,8 @@ def evaluate(e, env):
         try: recv_ = evaluate(e.func.value, env)
         except Unsupported: recv_ = e
         if recv_ is None: raise Raised("AttributeError", "'NoneType' object has no attribute %r" % e.func.attr)
+        if isinstance(recv_, dict) and recv_.get(".__complete__") == "all" and ("." + e.func.attr) not in recv_: raise Raised("AttributeError", "object has no attribute %r" % e.func.attr)       # a sample that lists all it has
+        if isinstance(recv_, (int, float)) and not isinstance(recv_, bool) and not hasattr(recv_, e.func.attr): raise Raised("AttributeError", "'%s' object has no attribute %r" % (type(recv_).__name__, e.func.attr))
     raise Unsupported("expression outside the supported subset : " + ast.unparse(e)[:80])
 import re as _re, codecs as _codecs, unicodedata as _ud
 class Trusted:
@@ -629,7 +631,10 @@ def call_method_of(inst_, cls_name, fn_, args, kw, env):
         if isinstance(v_, (PyFn, ClassRef, Trusted)) or k_ in (env.get("__keep__") or ()): env2.setdefault(k_, v_)
     env2["__depth__"] = env.get("__depth__", 0) + 1; env2["__class__"] = cls_name; env2["__global_names__"] = set()
     defaults = dict(zip(params[len(params) - len(fn_.args.defaults):], fn_.args.defaults))
-    for name_, dflt in defaults.items(): env2[name_] = evaluate(dflt, env2)
+    given_ = set(params[1:1 + len(args)]) | set(kw)
+    for name_, dflt in defaults.items():
+        if name_ in given_: continue            # the default of a parameter the caller supplies is not needed (it may be a typing expression)
+        env2[name_] = evaluate(dflt, env2)
     env2[params[0]] = ClassRef(cls_name) if classm_ else inst_
     for p_, a_ in zip(params[1:], args): env2[p_] = a_
     if fn_.args.vararg: env2[fn_.args.vararg.arg] = tuple(args[len(params) - 1:])
@@ -830,6 +835,9 @@ def _exec(stmts, env, max_steps=2000):
             if isinstance(s, ast.Assign):
                 v = evaluate(s.value, env)
                 for tg in s.targets: assign(tg, v)
+                continue
+            if isinstance(s, ast.AnnAssign):           # x: T = v  (the annotation is not evaluated; a bare declaration binds nothing)
+                if s.value is not None: assign(s.target, evaluate(s.value, env))
                 continue
             if isinstance(s, ast.Delete):
                 for tg in s.targets:
